@@ -28,6 +28,9 @@ pub struct LinkPlan {
     pub rcv_second: bool,
     pub credit: Option<u32>, // None = manual
     pub auto_accept: bool,
+    /// max-message-size the client puts in its attach: the sending link splits larger
+    /// payloads into several transfers at link level (the second splitting layer)
+    pub mms: Option<u64>,
     pub msgs: Vec<Msg>,
     pub presettle: Vec<bool>,
     pub send_kind: Vec<u32>,
@@ -206,6 +209,13 @@ pub fn draw_plans(nlinks: usize, frame_body: usize, max_msgs: u32, uid_base: &mu
         let mut presettle = Vec::new();
         let mut send_kind = Vec::new();
         let big = choice(3) == 1;
+        let mms = pick(&[None, None, Some(64u64), Some(300)]);
+        // with link-level splitting keep the number of transfers per message moderate, so
+        // that the frame volume stays far below the roomy channel capacities
+        let frame_body = match mms {
+            Some(m) => frame_body.min(m as usize * 6),
+            None => frame_body,
+        };
         for _ in 0..n {
             *uid_base += 1;
             msgs_v.push(msgs::gen_message(*uid_base, frame_body, if big { 4 } else { 2 }));
@@ -226,6 +236,7 @@ pub fn draw_plans(nlinks: usize, frame_body: usize, max_msgs: u32, uid_base: &mu
                 _ => None,
             },
             auto_accept: choice(3) == 1,
+            mms,
             msgs: msgs_v,
             presettle,
             send_kind,
@@ -364,13 +375,14 @@ pub async fn run() {
         plans
             .iter()
             .map(|p| format!(
-                "{}:{}{}{}c{:?}a{}",
+                "{}:{}{}{}c{:?}a{}m{:?}",
                 p.name,
                 if p.client_sends { "C>L" } else { "L>C" },
                 p.snd_mode,
                 if p.rcv_second { "2nd" } else { "1st" },
                 p.credit,
-                p.auto_accept as u8
+                p.auto_accept as u8,
+                p.mms
             ))
             .collect::<Vec<_>>()
             .join(","),
@@ -379,6 +391,10 @@ pub async fn run() {
     if plans.iter().any(|p| p.msgs.iter().any(|m| msgs::encode(m).len() > frame_body)) {
         sim::mark_nontrivial();
         sim::probe("multi-frame-message");
+    }
+    if plans.iter().any(|p| p.mms.map(|m| p.msgs.iter().any(|x| msgs::encode(x).len() as u64 > m)).unwrap_or(false)) {
+        sim::mark_nontrivial();
+        sim::probe("link-level-split-message");
     }
 
     let mut pair = match world::open_pair(&ccfg, &lcfg, nab, nba, crate::wire::Models::none()).await {
@@ -471,12 +487,17 @@ pub async fn run() {
                 "attach sender",
                 sim::in_group(
                     1,
-                    Sender::builder()
-                        .name(plan.name.clone())
-                        .target("q")
-                        .sender_settle_mode(snd_mode(plan.snd_mode))
-                        .receiver_settle_mode(rcv)
-                        .attach(sess),
+                    {
+                        let b = Sender::builder()
+                            .name(plan.name.clone())
+                            .target("q")
+                            .sender_settle_mode(snd_mode(plan.snd_mode))
+                            .receiver_settle_mode(rcv);
+                        match plan.mms {
+                            Some(m) => b.max_message_size(m).attach(sess),
+                            None => b.attach(sess),
+                        }
+                    },
                 ),
             )
             .await;
@@ -496,13 +517,18 @@ pub async fn run() {
                 "attach receiver",
                 sim::in_group(
                     1,
-                    Receiver::builder()
-                        .name(plan.name.clone())
-                        .source("q")
-                        .sender_settle_mode(snd_mode(plan.snd_mode))
-                        .receiver_settle_mode(rcv)
-                        .credit_mode(CreditMode::Manual)
-                        .attach(sess),
+                    {
+                        let b = Receiver::builder()
+                            .name(plan.name.clone())
+                            .source("q")
+                            .sender_settle_mode(snd_mode(plan.snd_mode))
+                            .receiver_settle_mode(rcv)
+                            .credit_mode(CreditMode::Manual);
+                        match plan.mms {
+                            Some(m) => b.max_message_size(m).attach(sess),
+                            None => b.attach(sess),
+                        }
+                    },
                 ),
             )
             .await;
